@@ -531,6 +531,8 @@ def run_client_case(case):
                 nonempty = [ln for ln in case["lines"] if ln.strip()]
                 unparseable = []
                 for ln in case["lines"]:
+                    if not ln.strip():
+                        continue  # (the lister skips blank lines without parsing them)
                     try:
                         (client.parse_mlsx_line if case["cmd"] == "MLSD" else client.parse_list_line)(ln.encode("latin-1"))
                     except Exception:
